@@ -356,9 +356,8 @@ func TestVerifC08Layout(t *testing.T) {
 		t.Fatal(err)
 	}
 	defer out.Close()
-	wr := bufio.NewWriterSize(out, 1<<20)
-	defer wr.Flush()
-	enc := json.NewEncoder(wr)
+	// unbuffered on purpose: if the real code kills the process on some term (log.Fatalf), what was seen so far survives
+	enc := json.NewEncoder(out)
 	tg.info["runtime_load_s"] = tload.Seconds()
 	enc.Encode(map[string]any{"info": tg.info})
 	world := &c08World{pkg: types.NewPackage("example.com/verifp", "verifp")}
@@ -392,6 +391,5 @@ func TestVerifC08Layout(t *testing.T) {
 		enc.Encode(o)
 		n++
 	}
-	wr.Flush()
 	fmt.Printf("VERIF_DONE target=%s cases=%d errors=%d wall=%.1fs\n", target, n, nerr, time.Since(t0).Seconds())
 }
